@@ -110,7 +110,7 @@ Proof. intros s j c H. apply nth_error_Some. unfold get in H. congruence. Qed.
 
 Definition life (l : label) : option nat :=
   match l with
-  | Accept k | NewSvc k | AssignerOk k | AssignerFail k | StartSrv k | SrvExit k _ | Finish k | ConnDone k => Some k
+  | Accept k | NewSvc k | AssignerOk k | AssignerFail k | StartSrv k | SrvStop k _ | SrvExit k _ | Finish k | ConnDone k => Some k
   | _ => None
   end.
 Definition is_life (k : nat) (l : label) : bool := match life l with Some j => j =? k | None => false end.
@@ -123,16 +123,17 @@ Definition path (k : nat) (p : phase) : list label :=
   | PAssigned => [Accept k; NewSvc k; AssignerOk k]
   | PFailed => [Accept k; NewSvc k; AssignerFail k]
   | PRunning => [Accept k; NewSvc k; AssignerOk k; StartSrv k]
-  | PExited st => [Accept k; NewSvc k; AssignerOk k; StartSrv k; SrvExit k st]
-  | PFinished st => [Accept k; NewSvc k; AssignerOk k; StartSrv k; SrvExit k st; Finish k]
-  | PDoneOk st => [Accept k; NewSvc k; AssignerOk k; StartSrv k; SrvExit k st; Finish k; ConnDone k]
+  | PStopping st => [Accept k; NewSvc k; AssignerOk k; StartSrv k; SrvStop k st]
+  | PExited st => [Accept k; NewSvc k; AssignerOk k; StartSrv k; SrvStop k st; SrvExit k st]
+  | PFinished st => [Accept k; NewSvc k; AssignerOk k; StartSrv k; SrvStop k st; SrvExit k st; Finish k]
+  | PDoneOk st => [Accept k; NewSvc k; AssignerOk k; StartSrv k; SrvStop k st; SrvExit k st; Finish k; ConnDone k]
   | PDoneFail => [Accept k; NewSvc k; AssignerFail k; ConnDone k]
   end.
 Definition path_of (s : state) (k : nat) : list label :=
   match get s k with Some c => path k (c_phase c) | None => [] end.
 
 Definition started (p : phase) : bool :=
-  match p with PRunning | PExited _ | PFinished _ | PDoneOk _ => true | _ => false end.
+  match p with PRunning | PStopping _ | PExited _ | PFinished _ | PDoneOk _ => true | _ => false end.
 
 Definition data_ok (n : nat) (c : conn) : Prop :=
   match c_phase c with
@@ -144,7 +145,7 @@ Definition data_ok (n : nat) (c : conn) : Prop :=
 
 Definition live (cs : list conn) : nat := length (filter (fun c => negb (is_done (c_phase c))) cs).
 Definition closes (p : phase) : nat :=
-  match p with PAccepted | PHasSvc | PAssigned | PRunning => 0 | _ => 1 end.
+  match p with PAccepted | PHasSvc | PAssigned | PRunning | PStopping _ => 0 | _ => 1 end.
 Definition closes_of (s : state) (k : nat) : nat :=
   match get s k with Some c => closes (c_phase c) | None => 0 end.
 
@@ -157,7 +158,6 @@ Record Inv (tr : list label) (s : state) : Prop := {
   inv_wg : wg s = live (conns s);
   inv_closed : forall k, count_occ Nat.eq_dec (closed_conns s) k = closes_of s k;
   inv_ret : returned s = true -> wg s = 0;
-  inv_stop : forall k c, get s k = Some c -> c_stop c = true -> ctx_done s = true;
   inv_flog : forall k i a st, In (k, i, a, st) (finish_log s) ->
              exists c, get s k = Some c /\ c_svc c = Some i /\ c_asg c = Some a /\
                        (c_phase c = PFinished st \/ c_phase c = PDoneOk st)
@@ -394,22 +394,6 @@ Proof.
   destruct (Nat.eqb_spec j (length (conns s))); simpl; exact HC.
 Qed.
 
-Lemma inv_stop_pres : forall tr s l s' os, Inv tr s -> step s l = Some (s', os) ->
-  forall k c, get s' k = Some c -> c_stop c = true -> ctx_done s' = true.
-Proof.
-  intros tr s l s' os I H j cj Hj Sj. pose proof (inv_stop _ _ I) as HS.
-  destruct l; inv_step H; gs; simpl ctx_done; try reflexivity;
-    try (now apply HS with (k := j) (c := cj));
-    try (match goal with E : get s ?k = Some ?c |- _ =>
-           split_get j k Hj;
-           [ rewrite E in Hj; simpl in Hj; inversion Hj; subst; clear Hj; simpl in Sj;
-             first [ now apply HS with (k := k) (c := c)
-                   | match goal with B : _ && _ = true |- _ => apply andb_prop in B; now destruct B end ]
-           | now apply HS with (k := j) (c := cj) ]
-         end).
-  split_new s j Hj; [now apply HS with (k := j) (c := cj) | discriminate].
-Qed.
-
 Lemma inv_ret_pres : forall tr s l s' os, Inv tr s -> step s l = Some (s', os) ->
   returned s' = true -> wg s' = 0.
 Proof.
@@ -456,7 +440,6 @@ Proof.
   - intros k c H. unfold get in H. simpl in H. destruct k; discriminate.
   - intros j k cj ck i H. unfold get in H. simpl in H. destruct j; discriminate.
   - intros k. unfold closes_of, get. simpl. now destruct k.
-  - intros k c H. unfold get in H. simpl in H. destruct k; discriminate.
   - intros k i a st [].
 Qed.
 
@@ -470,7 +453,6 @@ Proof.
   - eapply inv_wg_pres; eauto.
   - eapply inv_closed_pres; eauto.
   - eapply inv_ret_pres; eauto.
-  - eapply inv_stop_pres; eauto.
   - eapply inv_flog_pres; eauto.
 Qed.
 
@@ -565,13 +547,14 @@ Qed.
 Lemma finish_enabled_state : forall tr s k s' os, reach tr s -> step s (Finish k) = Some (s', os) ->
   exists c st i, get s k = Some c /\ c_phase c = PExited st /\ c_svc c = Some i /\ c_asg c = Some i /\
                  c_used c = Some i /\ os = [OFinish i i st] /\ In (k, i, i, st) (finish_log s') /\
-                 In (SrvExit k st) tr /\ In (StartSrv k) tr /\ In (AssignerOk k) tr /\ In (NewSvc k) tr.
+                 In (SrvStop k st) tr /\ In (SrvExit k st) tr /\ In (StartSrv k) tr /\ In (AssignerOk k) tr /\ In (NewSvc k) tr.
 Proof.
   intros tr s k s' os R H. pose proof (reach_inv _ _ R) as I. inv_step H.
   pose proof (inv_data _ _ I _ _ Heqo) as D. unfold data_ok in D. rewrite Heqp in D.
   destruct D as [i [A [B [C E]]]]. rewrite A in Heqo0. inversion Heqo0; subst. rewrite C in Heqo1. inversion Heqo1; subst.
   exists c, st, n0. repeat split; auto.
   - simpl. apply in_or_app. right. now left.
+  - apply (path_in_tr _ _ k _ R). unfold path_of. rewrite Heqo, Heqp. simpl. tauto.
   - apply (path_in_tr _ _ k _ R). unfold path_of. rewrite Heqo, Heqp. simpl. tauto.
   - apply (path_in_tr _ _ k _ R). unfold path_of. rewrite Heqo, Heqp. simpl. tauto.
   - apply (path_in_tr _ _ k _ R). unfold path_of. rewrite Heqo, Heqp. simpl. tauto.
@@ -586,12 +569,40 @@ Proof.
   rewrite get_set_conn, Nat.eqb_refl, Heqo. simpl. repeat split; auto.
 Qed.
 
+(* --- C20: the first stop cause wins ----------------------------------- *)
+
+Lemma stop_first_cause : forall tr s, reach tr s ->
+  (forall k st st', In (SrvStop k st) tr -> In (SrvStop k st') tr -> st = st') /\
+  (forall k st t1 t2, tr = t1 ++ SrvStop k st :: t2 ->
+     exists s1 c, reach t1 s1 /\ get s1 k = Some c /\ c_phase c = PRunning /\ trigger (ctx_done s1) c st = true /\
+                  (forall st', ~ In (SrvStop k st') t1)) /\
+  (forall k st, In (SrvExit k st) tr -> In (SrvStop k st) tr).
+Proof.
+  intros tr s R. split; [|split].
+  - intros k st st' A B.
+    pose proof (in_path _ _ k _ R A eq_refl) as PA. pose proof (in_path _ _ k _ R B eq_refl) as PB.
+    unfold path_of in *. destruct (get s k) as [c|]; [|destruct PA].
+    destruct (c_phase c); simpl in PA, PB;
+      repeat match goal with H : _ \/ _ |- _ => destruct H end; try discriminate; try contradiction; congruence.
+  - intros k st t1 t2 E. subst tr. apply reach_app_inv in R. destruct R as [s1 [R1 [os R2]]].
+    cbn [run] in R2. destruct (step s1 (SrvStop k st)) as [[s2 o2]|] eqn:ES; [|discriminate].
+    inv_step ES. exists s1, c. repeat split; auto.
+    intros st' X. pose proof (in_path _ _ k _ R1 X eq_refl) as PX. unfold path_of in PX. rewrite Heqo, Heqp in PX.
+    simpl in PX. intuition discriminate.
+  - intros k st A. pose proof (in_path _ _ k _ R A eq_refl) as PA. apply (path_in_tr _ _ k _ R).
+    unfold path_of in *. destruct (get s k) as [c|]; [|destruct PA].
+    destruct (c_phase c); simpl in PA |- *;
+      repeat match goal with H : _ \/ _ |- _ => destruct H end; try discriminate; try contradiction;
+      match goal with H : SrvExit _ _ = SrvExit _ _ |- _ => inversion H; subst end; tauto.
+Qed.
+
 Lemma finish_once_after_exit : forall tr s, reach tr s ->
   (forall k, count_occ label_eq_dec tr (Finish k) <= 1) /\
   (forall k t1 t2, tr = t1 ++ Finish k :: t2 ->
      exists s1 s2 c st i,
        reach t1 s1 /\ step s1 (Finish k) = Some (s2, [OFinish i i st]) /\
        get s1 k = Some c /\ c_phase c = PExited st /\ c_svc c = Some i /\ c_asg c = Some i /\ c_used c = Some i /\
+       In (SrvStop k st) t1 /\ (forall st', In (SrvStop k st') (t1 ++ Finish k :: t2) -> st' = st) /\
        In (SrvExit k st) t1 /\ In (StartSrv k) t1 /\ In (AssignerOk k) t1 /\ In (NewSvc k) t1 /\
        ~ In (Finish k) t1 /\ ~ In (Finish k) t2 /\ In (k, i, i, st) (finish_log s2)) /\
   (returned s = true -> forall k, In (StartSrv k) tr -> count_occ label_eq_dec tr (Finish k) = 1).
@@ -601,11 +612,14 @@ Proof.
   - intros k t1 t2 E. subst tr.
     pose proof (life_count_le1 _ _ (Finish k) k R eq_refl) as C1.
     rewrite count_occ_app in C1. rewrite (count_occ_cons_eq label_eq_dec t2 (eq_refl (Finish k))) in C1.
+    pose proof R as R0.
     apply reach_app_inv in R. destruct R as [s1 [R1 [os R2]]]. cbn [run] in R2.
     destruct (step s1 (Finish k)) as [[s2 o2]|] eqn:ES; [|discriminate].
     destruct (finish_enabled_state _ _ _ _ _ R1 ES) as [c [st [i H]]].
-    destruct H as [G [P [A [B [U [O [L [X1 [X2 [X3 X4]]]]]]]]]]. subst o2.
+    destruct H as [G [P [A [B [U [O [L [X0 [X1 [X2 [X3 X4]]]]]]]]]]]. subst o2.
     exists s1, s2, c, st, i. repeat split; auto.
+    + intros st' Y. destruct (stop_first_cause _ _ R0) as [Q _]. apply (Q k); [exact Y|].
+      apply in_or_app. now left.
     + intros H. apply (count_occ_In label_eq_dec) in H. lia.
     + intros H. apply (count_occ_In label_eq_dec) in H. lia.
   - intros Ret k H. apply (count_in_1 _ s (Finish k) k R eq_refl).
@@ -726,32 +740,31 @@ Proof.
 Qed.
 
 Lemma ctx_stops_all : forall tr s, reach tr s -> ctx_done s = true ->
-  (* every running server has been stopped, or its watcher's Stop is enabled *)
+  (* every server still running is about to be stopped: the watcher's Stop is enabled *)
   (forall k c, get s k = Some c -> c_phase c = PRunning ->
-     c_stop c = true \/ (exists s', step s (StopSrv k) = Some (s', []) /\ In (StopSrv k) (enabled_internal s))) /\
-  (* a stopped server exits as soon as its handlers have returned *)
-  (forall k c, get s k = Some c -> c_phase c = PRunning -> c_stop c = true -> c_busy c = 0 ->
-     exists s', step s (SrvExit k StStopped) = Some (s', [])) /\
+     exists s', step s (SrvStop k StStopped) = Some (s', []) /\ In (SrvStop k StStopped) (enabled_internal s)) /\
+  (* a server that has stopped exits as soon as its handlers have returned *)
+  (forall k c st, get s k = Some c -> c_phase c = PStopping st -> c_busy c = 0 ->
+     exists s', step s (SrvExit k st) = Some (s', [])) /\
   (* an accepter that honours ctx fails with a closing error, for which Loop returns nil *)
   (acc s = Accepting -> In (AcceptErr EClosing) (enabled_internal s) /\ retv_of EClosing = RNil) /\
-  (* at quiescence: only servers with a handler still running are left, all of them stopped *)
+  (* at quiescence: only stopped servers with a handler still running are left *)
   (quiescent s = true ->
-     (forall k c, get s k = Some c -> is_done (c_phase c) = true \/ (c_phase c = PRunning /\ c_stop c = true /\ c_busy c > 0)) /\
+     (forall k c, get s k = Some c -> is_done (c_phase c) = true \/ (exists st, c_phase c = PStopping st /\ c_busy c > 0)) /\
      acc s <> Accepting /\
      ((forall k c, get s k = Some c -> c_busy c = 0) -> returned s = true)).
 Proof.
   intros tr s R C. pose proof (reach_inv _ _ R) as I. repeat split.
-  - intros k c G P. destruct (c_stop c) eqn:S; [now left|]. right. exists (set_conn k with_stop s). split.
-    + unfold step. rewrite G, P, C, S. reflexivity.
+  - intros k c G P. exists (set_conn k (with_phase (PStopping StStopped)) s). split.
+    + unfold step. rewrite G, P, C. reflexivity.
     + unfold enabled_internal, enabled. apply in_or_app. right.
       apply (conns_enabled_in false (ctx_done s) (conns s) 0 k c _ G). simpl.
-      unfold conn_enabled. rewrite P, C, S. simpl. now left.
-  - intros k c G P S B. unfold step. rewrite G, P, B. simpl. rewrite S. eexists; reflexivity.
+      unfold conn_enabled. rewrite P, C. simpl. now left.
+  - intros k c st G P B. unfold step. rewrite G, P, B. destruct (status_eq_dec st st); [|congruence]. eexists; reflexivity.
   - unfold enabled_internal, enabled. rewrite H, C. simpl. now left.
   - intros k c G. pose proof (quiescent_conn _ _ _ H G) as E. unfold conn_enabled in E. rewrite C in E.
-    destruct (c_phase c) eqn:P; try discriminate; auto. right.
-    destruct (c_stop c) eqn:S; simpl in E; [|discriminate].
-    destruct (c_busy c) eqn:B; [|repeat split; lia]. simpl in E. rewrite S in E. discriminate.
+    destruct (c_phase c) eqn:P; try discriminate; auto. right. exists st. split; [reflexivity|].
+    destruct (c_busy c); [discriminate|lia].
   - intros A. unfold quiescent, enabled_internal, enabled in H. rewrite A, C in H. discriminate.
   - intros NB. unfold returned. destruct (acc s) eqn:A; [| |reflexivity].
     + unfold quiescent, enabled_internal, enabled in H. rewrite A, C in H. discriminate.
@@ -765,7 +778,7 @@ Proof.
         pose proof (quiescent_conn _ _ _ H G) as E. unfold conn_enabled in E. rewrite C in E.
         specialize (NB _ _ G).
         destruct (c_phase c) eqn:P; try discriminate; auto.
-        destruct (c_stop c) eqn:S; simpl in E; [|discriminate]. rewrite NB in E. simpl in E. rewrite S in E. discriminate. }
+        rewrite NB in E. discriminate. }
       unfold quiescent, enabled_internal, enabled in H. rewrite A, W in H. discriminate.
 Qed.
 
@@ -818,7 +831,7 @@ Proof. eexists; eexists. vm_compute. repeat split; auto. Qed.
 (* non-vacuity: a concrete history with two connections (one served, with a call in flight when the
    context ends; one whose Assigner fails), ending with Loop returned *)
 Definition ex_trace : list label :=
-  [Accept 0; NewSvc 0; AssignerOk 0; StartSrv 0; Accept 1; CallStart 0; CtxEnd; AcceptErr EClosing; StopSrv 0;
+  [Accept 0; NewSvc 0; AssignerOk 0; StartSrv 0; Accept 1; CallStart 0; CtxEnd; AcceptErr EClosing; SrvStop 0 StStopped;
    NewSvc 1; AssignerFail 1; ConnDone 1; CallEnd 0; SrvExit 0 StStopped; Finish 0; ConnDone 0; LoopReturn RNil].
 Definition ex_state : state :=
   match run (init true) ex_trace with Some (s, _) => s | None => init true end.
@@ -838,7 +851,7 @@ Example finish_nonvacuous :
   exists t1 t2, ex_trace = t1 ++ Finish 0 :: t2.
 Proof.
   repeat split; [vm_compute; tauto|].
-  exists [Accept 0; NewSvc 0; AssignerOk 0; StartSrv 0; Accept 1; CallStart 0; CtxEnd; AcceptErr EClosing; StopSrv 0;
+  exists [Accept 0; NewSvc 0; AssignerOk 0; StartSrv 0; Accept 1; CallStart 0; CtxEnd; AcceptErr EClosing; SrvStop 0 StStopped;
           NewSvc 1; AssignerFail 1; ConnDone 1; CallEnd 0; SrvExit 0 StStopped], [ConnDone 0; LoopReturn RNil]. reflexivity.
 Qed.
 Example returns_last_nonvacuous :
@@ -855,10 +868,22 @@ Proof.
 Qed.
 Example ctx_stops_all_nonvacuous :
   exists tr s c, reach tr s /\ ctx_done s = true /\ quiescent s = true /\
-                 get s 0 = Some c /\ c_phase c = PRunning /\ acc s = Waiting EClosing.
+                 get s 0 = Some c /\ c_phase c = PStopping StStopped /\ acc s = Waiting EClosing.
 Proof.
-  exists [Accept 0; NewSvc 0; AssignerOk 0; StartSrv 0; CallStart 0; CtxEnd; AcceptErr EClosing; StopSrv 0].
+  exists [Accept 0; NewSvc 0; AssignerOk 0; StartSrv 0; CallStart 0; CtxEnd; AcceptErr EClosing; SrvStop 0 StStopped].
   eexists; eexists. split; [eexists; vm_compute; reflexivity|]. vm_compute. repeat split.
 Qed.
 Example assigner_failure_nonvacuous : reach ex_trace ex_state /\ In (AssignerFail 1) ex_trace.
 Proof. split; [exact reach_nonvacuous | vm_compute; tauto]. Qed.
+
+(* the first cause wins: the peer closes while a handler runs, then the context ends; the server exits
+   Closed, and an exit with status Stopped is not possible *)
+Definition ex_first_cause : list label :=
+  [Accept 0; NewSvc 0; AssignerOk 0; StartSrv 0; CallStart 0; PeerClose 0; SrvStop 0 StClosed; CtxEnd; CallEnd 0].
+Example first_cause_nonvacuous :
+  exists s, reach ex_first_cause s /\ ctx_done s = true /\
+            step s (SrvExit 0 StStopped) = None /\ step s (SrvStop 0 StStopped) = None /\
+            exists s' os, run s [SrvExit 0 StClosed; Finish 0] = Some (s', os) /\ os = [OFinish 0 0 StClosed].
+Proof.
+  eexists. split; [eexists; vm_compute; reflexivity|]. vm_compute. repeat split. eexists; eexists. split; reflexivity.
+Qed.
